@@ -370,7 +370,8 @@ func c05SigCases(thorough bool) []*c05Case {
 func c05Lists(withVariadic bool) [][]string {
 	out := [][]string{{}, {"int"}, {"string"}, {"int", "int"}, {"int", "string"}, {"string", "int"}, {"string", "string"}}
 	if withVariadic {
-		out = append(out, []string{"...int"}, []string{"[]int"}, []string{"int", "...int"}, []string{"int", "[]int"})
+		out = append(out, []string{"...int"}, []string{"[]int"}, []string{"int", "...int"}, []string{"int", "[]int"},
+			[]string{"[]int", "...int"}, []string{"[]int", "[]int"}, []string{"[]int", "int"})
 	}
 	return out
 }
